@@ -31,6 +31,8 @@ def _factors(t):
     t = _nocast(t)
     if isinstance(t, tuple) and len(t) == 4 and t[0] == "bin" and t[1] == "*":
         return _factors(t[2]) + _factors(t[3])
+    if isinstance(t, tuple) and len(t) == 4 and t[0] == "bin" and t[1] == "<<" and isinstance(t[3], tuple) and t[3][0] == "int":
+        return _factors(t[2]) + [("int", 1 << t[3][1])]
     return [t]
 
 
